@@ -1,8 +1,121 @@
-(* C44 placeholder *)
+(* C44: session resumption cannot be forged or used to bypass policy.  Property theorems only (proofs in
+   proofs/TlsTicketProofs.v).
+
+   Model (model/TlsTicket.v): sessionState.marshal/unmarshal, encryptTicket, decryptTicket of
+   bfe_tls/ticket.go and checkForResumption / tryCipherSuite / mutualVersion of handshake_server.go.
+   HMAC-SHA256 (mac) and AES-CTR (ctr) are abstract; what is proved is how BFE uses them: the MAC covers
+   every byte before the tag (IV and ciphertext), it is verified before anything is decrypted or parsed,
+   and a session from a ticket or from the cache is resumed only if all policy checks pass. *)
 From Coq Require Import List ZArith Bool.
-From Bfe Require Import lib.Val model.TlsTicket proofs.TlsTicketProofs run.RunC44.
+From Bfe Require Import lib.Val lib.Bytes model.TlsTicket run.RunC44 proofs.TlsTicketProofs.
 Import ListNotations.
 Open Scope Z_scope.
-Theorem C44_xor_nil : forall a, xor_bytes a [] = a.
-Proof. exact xor_nil. Qed.
-Print Assumptions C44_xor_nil.
+
+(* C44_only_own_unmodified.  For every MAC and cipher, every key, every list `issued` of (iv, state) pairs
+   for which this server called encryptTicket, and every presented byte string t: under the
+   unforgeability premise for t ("if t's tag verifies under the server's MAC key, then the bytes it
+   covers are bytes the server itself MAC'd when issuing a ticket"), a ticket accepted by decryptTicket
+   is byte-identical to a ticket the server issued under this key.  So every bit flip, truncation,
+   extension, splice and foreign-key ticket is rejected. *)
+Theorem C44_only_own_unmodified :
+  forall (mac : list Z -> list Z -> list Z) (ctr : list Z -> list Z -> list Z -> list Z)
+         key (issued : list (list Z * sess)) t s,
+    (mac_ok mac key t = true ->
+     exists iv st, In (iv, st) issued /\ ticket_body t = iv ++ ctr (enc_key key) iv (marshal st)) ->
+    decrypt_ticket mac ctr key t = Some s ->
+    exists iv st, In (iv, st) issued /\ t = encrypt_ticket mac ctr key iv st.
+Proof. exact only_own_unmodified. Qed.
+Print Assumptions C44_only_own_unmodified.
+
+(* The MAC is checked first: nothing is accepted (not even parsed) unless the tag over all preceding
+   bytes verifies and the ticket has at least 16+32 bytes. *)
+Theorem C44_mac_before_parse : forall mac ctr key t s,
+  decrypt_ticket mac ctr key t = Some s -> mac_ok mac key t = true.
+Proof. exact decrypt_mac_ok. Qed.
+Print Assumptions C44_mac_before_parse.
+
+(* With a collision-free 32-byte MAC (no unforgeability premise needed): a ticket issued under another
+   MAC key is rejected; any modification confined to the bytes before the tag (IV / ciphertext: bit
+   flips, insertions, deletions, truncation of the ciphertext) or confined to the tag is rejected; every
+   string shorter than 48 bytes is rejected. *)
+Theorem C44_foreign_key_rejected : forall mac ctr,
+  (forall k m k' m', mac k m = mac k' m' -> k = k' /\ m = m') -> (forall k m, length (mac k m) = 32%nat) ->
+  forall key key' iv st, mac_key key <> mac_key key' ->
+    decrypt_ticket mac ctr key (encrypt_ticket mac ctr key' iv st) = None.
+Proof. exact foreign_key_rejected. Qed.
+Print Assumptions C44_foreign_key_rejected.
+Theorem C44_modified_rejected : forall mac ctr,
+  (forall k m k' m', mac k m = mac k' m' -> k = k' /\ m = m') -> (forall k m, length (mac k m) = 32%nat) ->
+  forall key iv st t', let t := encrypt_ticket mac ctr key iv st in
+    t' <> t -> (ticket_body t' = ticket_body t \/ ticket_tag t' = ticket_tag t) ->
+    decrypt_ticket mac ctr key t' = None.
+Proof. exact modified_rejected. Qed.
+Print Assumptions C44_modified_rejected.
+Theorem C44_short_rejected : forall mac ctr key t, blen t < 48 -> decrypt_ticket mac ctr key t = None.
+Proof. exact short_rejected. Qed.
+Print Assumptions C44_short_rejected.
+
+(* Own unmodified tickets are honoured (non-vacuity of the acceptance theorems): for a length-preserving
+   involutive stream cipher and a 32-byte MAC, decryptTicket inverts encryptTicket on every session state
+   whose fields fit their length prefixes, and sessionState.unmarshal inverts marshal. *)
+Theorem C44_roundtrip : forall mac ctr,
+  (forall k iv d, ctr k iv (ctr k iv d) = d) -> (forall k m, length (mac k m) = 32%nat) ->
+  forall key iv st, length iv = 16%nat -> wf_sess st = true ->
+    decrypt_ticket mac ctr key (encrypt_ticket mac ctr key iv st) = Some st.
+Proof. exact decrypt_encrypt. Qed.
+Print Assumptions C44_roundtrip.
+Theorem C44_unmarshal_marshal : forall s, wf_sess s = true -> unmarshal (marshal s) = Some s.
+Proof. exact unmarshal_marshal. Qed.
+Print Assumptions C44_unmarshal_marshal.
+
+(* C44_cache_path: the candidate session is either an accepted ticket (tickets enabled, extension
+   present, ticket non-empty) or the entry the server's own cache holds under the offered session id
+   (cache configured and not disabled); with the cache disabled or absent a session id never resumes. *)
+Theorem C44_cache_path : forall mac ctr p s, candidate mac ctr p = Some s ->
+  (ticket_path p = true /\ decrypt_ticket mac ctr (p_key p) (h_ticket p) = Some s) \/
+  (ticket_path p = false /\ h_sid p <> [] /\ p_cache_disabled p = false /\ p_cache_present p = true /\
+   exists v, cache_get (p_cache p) (h_sid p) = Some v /\ unmarshal v = Some s).
+Proof. exact candidate_source. Qed.
+Print Assumptions C44_cache_path.
+
+(* C44_suite_still_offered_and_enabled + C44_client_cert_not_skipped: whenever checkForResumption
+   resumes, the suite of the resumed connection is the session's suite, the client still offers it, the
+   server still lists it and it passes tryCipherSuite's flag checks; the session's version is at most
+   the client's and inside [MinVersion, MaxVersion]; RequireAnyClientCert / RequireAndVerifyClientCert
+   never resume a session without client certificates, and NoClientCert never resumes one with. *)
+Theorem C44_resumption_policy : forall mac ctr K table p s suite,
+  check_for_resumption mac ctr K table p = Some (s, suite) ->
+  candidate mac ctr p = Some s /\
+  suite = s_suite s /\ In (s_suite s) (h_suites p) /\ In (s_suite s) (p_suites p) /\
+  (exists fl, lookup_flags table (s_suite s) = Some fl /\ suite_usable K p fl (s_vers s) = true) /\
+  s_vers s <= h_vers p /\ min_version K p <= s_vers s <= max_version K p /\
+  ((p_auth p = k_require_any K \/ p_auth p = k_require_verify K) -> s_certs s <> []) /\
+  (s_certs s <> [] -> p_auth p <> k_no_cert K).
+Proof. exact resumption_policy. Qed.
+Print Assumptions C44_resumption_policy.
+
+(* C44_params_preserved.  The resumed connection uses the session's master secret and cipher suite
+   (s and suite are what doResumeHandshake installs) but runs at c.vers = mutualVersion(clientHello.vers),
+   not at the session's version.  Full statement (false):
+     check_for_resumption .. p = Some (s, suite) -> conn_version K p = Some cv -> s_vers s = cv.
+   Proved: the session's version is never above the connection's and equals it when the client offers
+   exactly the session's version; refuted otherwise (finding 1). *)
+Theorem C44_params_preserved_partial : forall mac ctr K table p s suite cv,
+  check_for_resumption mac ctr K table p = Some (s, suite) -> conn_version K p = Some cv ->
+  suite = s_suite s /\ s_vers s <= cv /\ (h_vers p = s_vers s -> cv = s_vers s).
+Proof. exact params_preserved_partial. Qed.
+Print Assumptions C44_params_preserved_partial.
+Theorem C44_version_refuted : forall mac ctr,
+  check_for_resumption mac ctr K0 table0 pol_refute = Some (sess10, 47) /\
+  conn_version K0 pol_refute = Some 771 /\ s_vers sess10 < 771.
+Proof. exact version_refuted_lemma. Qed.
+Print Assumptions C44_version_refuted.
+
+(* The property predicate the harness evaluates on the implementation holds of the model on every
+   checkForResumption input outside finding class 1 (session version below connection version). *)
+Theorem C44_prop_of_model_policy : forall k tb p col ks K table pol,
+  dec_consts k = Some K -> all_some (map dec_pair tb) = Some table -> dec_policy p = Some pol ->
+  let i := VL [VZ 3; k; VL tb; p; VB col; VB ks] in
+  kf_C44 i = 0 -> prop_C44 i (run_C44 i) = true.
+Proof. exact prop_C44_of_model_policy. Qed.
+Print Assumptions C44_prop_of_model_policy.
